@@ -352,6 +352,19 @@ func FilterPMTPacketsToPids(packets []*packet.Packet, pids []int) ([]*packet.Pac
 	if len(missingPids) == len(pids) {
 		return nil, returnError
 	}
+	// The ignored PAT and PMT PIDs are not PIDs of the PMT either: when every other requested PID is
+	// missing, none of the PIDs being filtered exists in the PMT.
+	if len(missingPids) > 0 {
+		ignoredPids := 0
+		for _, pid := range pids {
+			if !unfilteredPMT.PIDExists(pid) && (pid == PatPid || pid == pmtPid) {
+				ignoredPids++
+			}
+		}
+		if len(missingPids)+ignoredPids == len(pids) {
+			return nil, returnError
+		}
+	}
 
 	// include +1 to account for the PointerField field itself
 	pointerField := PointerField(pmtPayload) + 1
